@@ -1,7 +1,70 @@
-(* C11 — pipeline placeholder; replaced by the real statements *)
-From Gdsl.Model Require Import Base NodeOps.
-From Gdsl.Proofs Require Import NodeLemmas.
+(* C11 — scc() partitions the graph into its strongly connected components.
+   Model: coq/model/Scc.v (Graph::scc / scc_ordering as repaired: Kosaraju — pass 1: postorder() over outgoing edges from
+   every not yet visited member in CONTAINER ORDER, filtered to unvisited targets; pass 2: nodes in decreasing finishing
+   order, preorder().transpose() filtered to unassigned targets = the component). `order` is the hash map's iteration
+   order: an arbitrary permutation of the member keys (OrderOK), universally quantified. SC h u v = each is reachable from
+   the other over outgoing edges. Closed: every neighbour of a member is a member (the property's proviso). *)
+From Gdsl.Model Require Import Spec Scc.
+From Gdsl.Proofs Require Import SccProof.
 
-Theorem C11_placeholder_to_nil : forall (E : Type) v, to_ v (@nil (nat * E)) = [].
-Proof. exact to_nil. Qed.
-Print Assumptions C11_placeholder_to_nil.
+(* the components are a partition of the members (Permutation of their concatenation), none is empty, two nodes of one component reach each other, and a member strongly connected to a node of a component is in that component *)
+Theorem c11_scc_correct :
+  forall (K V E : Type) (keqb : K -> K -> bool),
+       KeqbSpec keqb ->
+       forall (h : heap K V E) (g : graph K) (order : list K) (fuel : nat) (comps : list (list nat)),
+       Wf h ->
+       KeysInj h ->
+       Mirror h ->
+       GraphOK h g ->
+       Closed h g ->
+       OrderOK g order ->
+       scc keqb fuel h g order = Some comps ->
+       Permutation (concat comps) (members g) /\
+       Forall (fun c : list nat => c <> []) comps /\
+       (forall (c : list nat) (u v : nat), In c comps -> In u c -> In v c -> SC h u v) /\
+       (forall (c : list nat) (u v : nat), In c comps -> In u c -> In v (members g) -> SC h u v -> In v c).
+Proof. exact scc_correct. Qed.
+Print Assumptions c11_scc_correct.
+
+(* with fuel >= fuel_bound the out-of-fuel outcome excluded above cannot occur *)
+Theorem c11_scc_terminates :
+  forall (K V E : Type) (keqb : K -> K -> bool),
+       KeqbSpec keqb ->
+       forall (h : heap K V E) (g : graph K) (order : list K) (fuel : nat),
+       Wf h ->
+       KeysInj h -> GraphOK h g -> OrderOK g order -> fuel_bound h <= fuel -> scc keqb fuel h g order <> None.
+Proof. exact scc_terminates. Qed.
+Print Assumptions c11_scc_terminates.
+
+(* the partition does not depend on the container's iteration order *)
+Theorem c11_scc_order_independent :
+  forall (K V E : Type) (keqb : K -> K -> bool),
+       KeqbSpec keqb ->
+       forall (h : heap K V E) (g : graph K) (o1 o2 : list K) (fuel : nat) (c1 c2 : list (list nat)),
+       Wf h ->
+       KeysInj h ->
+       Mirror h ->
+       GraphOK h g ->
+       Closed h g ->
+       OrderOK g o1 ->
+       OrderOK g o2 ->
+       scc keqb fuel h g o1 = Some c1 ->
+       scc keqb fuel h g o2 = Some c2 ->
+       forall u v : nat,
+       In u (members g) ->
+       In v (members g) ->
+       (exists c : list nat, In c c1 /\ In u c /\ In v c) <->
+       (exists c : list nat, In c c2 /\ In u c /\ In v c).
+Proof. exact scc_order_independent. Qed.
+Print Assumptions c11_scc_order_independent.
+
+
+(* non-vacuity: 0<->1, 0<->2 (a component that is not a simple cycle — the graph D7 got wrong), 3 -> 0, 4 isolated *)
+Example c11_nonvacuous :
+  let ops : list (op nat nat nat) :=
+    [ONew 10 0; ONew 11 0; ONew 12 0; ONew 13 0; ONew 14 0; OConnect 0 1 1; OConnect 1 0 2; OConnect 0 2 3; OConnect 2 0 4; OConnect 3 0 5] in
+  let h := fst (run_d Nat.eqb ops) in
+  let g : graph nat := [(10, 0); (11, 1); (12, 2); (13, 3); (14, 4)] in
+  scc Nat.eqb 200 h g [13; 11; 14; 10; 12] = Some [[4]; [3]; [0; 1; 2]] /\
+  scc Nat.eqb 200 h g [12; 14; 10; 13; 11] = Some [[3]; [4]; [2; 0; 1]].
+Proof. vm_compute. auto. Qed.
